@@ -39,7 +39,14 @@ def _worker(job):
     configs, histories = job
     w = World()
     states = trans = 0
+    import time as _time
+    t_stop = _time.time() + (600 if _G["tier"] == "quick" else 4300)
     for mode, entries in configs:
+        if _time.time() > t_stop:
+            rep.inconc("time budget of the worker exhausted before configuration %r" % ((mode, entries),))
+            break
+        if len(rep.violations) >= 8:
+            break          # enough counterexamples from this share of the configurations
         kw = {"exclude_pgns": list(entries)} if mode == "exclude" else {"include_pgns": list(entries)}
         for hist in histories:
             def h():
